@@ -194,7 +194,7 @@ func allPerms(n int) [][]int {
 func userNames(p *Prog) []string {
 	set := map[string]bool{}
 	fixed := func(s string) bool {
-		if s == "" || specialVars[s] || s == guardVar {
+		if s == "" || specialVars[s] || s == guardVar || s == "O_" || s == "M_" || s == "N_" || s == "K_" {
 			return true
 		}
 		for _, a := range builtinArrays {
@@ -487,7 +487,7 @@ func variantSame(baseTables, varTables string, rmap map[string]string, variant s
 		if !ok || e2.Type != e.Type || e2.Scope != e.Scope {
 			same = false
 		}
-		if ok && (variant == "perm" || variant == "rename-suffix" || key.Fn != "") && e2.Index != e.Index {
+		if ok && (variant == "perm" || key.Fn != "") && e2.Index != e.Index {
 			same = false
 		}
 	}
